@@ -159,9 +159,60 @@ def run(chk: Check) -> None:
                     other[k]["switchpoints"] = donor[k]["switchpoints"]
             frags_b = S.full_sched_to_fragz({"zone_idx": outer["zone_idx"], "schedule": other})
             _reassembly(chk, D, S, rnd, zone, outer, frags, {"zone_idx": outer["zone_idx"], "schedule": other}, frags_b)
+        # ---- one Schedule object over an edit: it holds this schedule, the last day(s) of the week are edited, and the
+        #      reply packets of the new version are received (twice over, any order): it reports the new version
+        if h % 3 == 1:
+            import copy
+
+            other = copy.deepcopy(inner)
+            donor = gen_schedule(rnd, dhw, n_max=len(inner[-1]["switchpoints"]))
+            for k in range(len(other) - rnd.choice((1, 1, 2)), len(other)):
+                other[k]["switchpoints"] = donor[k]["switchpoints"]
+            if other != inner:
+                outer_b = {"zone_idx": outer["zone_idx"], "schedule": other}
+                _edited(chk, S, rnd, zone, outer, frags, outer_b, S.full_sched_to_fragz(outer_b))
         if h < 2:
             chk.sample({"schedule": show_sched(outer)[:200], "fragments": [len(f) // 2 for f in frags]})
     D.run()
+
+
+def _edited(chk, S, rnd, zone, sched_a, frags_a, sched_b, frags_b) -> None:
+    """A Schedule holds version a (received in full); then version b's packets arrive - every fragment, twice over, in
+    any order.  What is received is b and only b: the object reports b (through the passive path, `_handle_msg`)."""
+    tcs = SimpleNamespace(zone_lock_idx=None)
+    zobj = SimpleNamespace(id=f"{CTL}_{zone}", idx=zone, ctl=SimpleNamespace(id=CTL), tcs=tcs, _gwy=SimpleNamespace())
+    sch = S.Schedule(zobj)
+
+    def msg(frags, i):
+        return SimpleNamespace(code="0404", verb="RP", payload={"zone_idx": zone, "frag_number": i, "total_frags": len(frags),
+                                                                 "frag_length": len(frags[i - 1]) // 2, "fragment": frags[i - 1]})
+
+    same_head = len(frags_a) == len(frags_b) and frags_a[0] == frags_b[0]
+    chk.count("edited.same_count_and_first_fragment" if same_head else "edited.other")
+    seq = [("a", i) for i in range(1, len(frags_a) + 1)]
+    for _ in range(2):
+        order = list(range(1, len(frags_b) + 1))
+        if rnd.random() < 0.6:
+            rnd.shuffle(order)
+        seq += [("b", i) for i in order]
+    rep = {"op": "reassembly.edited", "zone": zone, "a": show_sched(sched_a), "b": show_sched(sched_b), "frags_a": frags_a, "frags_b": frags_b, "seq": seq}
+    held = None
+    for n, (which, i) in enumerate(seq):
+        try:
+            sch._handle_msg(msg(frags_a if which == "a" else frags_b, i))
+        except Exception as e:  # noqa: BLE001
+            chk.violation(f"reassembly.edited.raise:{type(e).__name__}", f"feeding fragment {which}{i} raised {e!r}", rep)
+            return
+        chk.evaluations += 1
+        if n + 1 == len(frags_a):
+            held = S_show(sch._full_schedule) if sch._full_schedule else "-"
+    got = S_show(sch._full_schedule) if sch._full_schedule else "-"
+    if held != S_show(sched_a):
+        chk.violation("reassembly.edited.first", f"after one complete pass the schedule held is {held[:100]}", rep)
+    elif got != S_show(sched_b):
+        what = "still the version before the edit" if got == held else ("none" if got == "-" else "neither version")
+        chk.violation("reassembly.edited.stale" + (".same-first-fragment" if same_head else ""), f"after every packet of the edited schedule was received twice over the "
+                      f"schedule reported is {what}: {got[:100]}", rep)
 
 
 def _reassembly(chk, D, S, rnd, zone, sched_a, frags_a, sched_b, frags_b) -> None:
